@@ -105,12 +105,19 @@ def impl(case):
     if lons:
         lo = np.array(lons)
         la = np.array(lats)
+        if all(float(v).is_integer() for v in lons) and len(lons) % 2:
+            lo = lo.astype("int64")      # whole-degree longitudes handed over as integers; the latitudes need not be whole
+        up = np.arange(len(lons)) * 0.375 - 1.25      # a further coordinate (height): none of the others is touched
         lo.setflags(write=False)
         la.setflags(write=False)
-        r = C.call(vd.longitude_continuity, [lo, la], region)
+        up.setflags(write=False)
+        cin = [lo, la] + ([up] if len(lons) % 3 == 0 else [])
+        r = C.call(vd.longitude_continuity, cin, region)
         if C.is_err(r):
             return r
         coords, reg = r
+        if len(coords) != len(cin) or any(not np.array_equal(np.asarray(a), b) for a, b in zip(coords[1:], cin[1:])):
+            return ["err", "Other:latitudes_or_extra_coordinates_changed"]
         return [[float(v) for v in reg], [float(v) for v in coords[0]], [float(v) for v in coords[1]]]
     r = C.call(vd.longitude_continuity, None, region)
     if C.is_err(r):
